@@ -26,7 +26,7 @@ var DefaultInitPackages = []string{
 	"google.golang.org/protobuf/internal/errors",
 	"google.golang.org/protobuf/encoding/protodelim",
 	"google.golang.org/genproto/googleapis/rpc/code",
-	"github.com/gobwas/ws",
+	"github.com/gobwas/ws", "github.com/gobwas/ws/wsutil", "github.com/gobwas/pool/pbufio", "github.com/gobwas/pool/pbytes", "github.com/gobwas/pool", "github.com/gobwas/httphead", "io/ioutil", "bufio",
 }
 
 // InitPackages runs the package initialisers of the listed packages and of the package under test.
